@@ -4,7 +4,7 @@ writer _get_line_results_3ph driven white-box with chosen sequence voltages/curr
 of real runpp_3ph runs, all vs C11.Model evaluated in the exact field Q(sqrt3, j).
 Oracle: runpp_3ph vs runpp on generated symmetric nets (equal phase magnitudes = symmetric result, angles 0/-120/+120,
 per-phase powers = one third); on asymmetric nets per-phase sums of every element and per-phase nodal power balance."""
-import copy, json, math
+import copy, glob, json, math, os
 import numpy as np, pandas as pd
 import pandapower as pp
 from fractions import Fraction
@@ -12,20 +12,31 @@ from vf import coqrun as cq
 from pandapower.pf.runpp_3ph import runpp_3ph
 from pandapower import auxiliary as aux
 from pandapower.results_branch import _get_line_results_3ph
+from pandapower.pypower import idx_brch as IB, idx_bus as IBUS
 
 RULE = ("(a) 50 complex triples through sequence_to_phase/phase_to_sequence, 25 (S012,V012) arrays incl. zero voltages "
         "through SVabc_from_SV012; (b) 8 white-box calls of _get_line_results_3ph with chosen sequence quantities; "
         "(c) generated nets (3-6 MV buses, lines with zero-sequence data, 0-1 transformer with vector group Dyn/YNyn/Yzn, "
         "rated lv voltage 20/21 kV and hv/lv taps, buses fused by closed bus-bus switches with loads on both, symmetric loads/sgens with scaling and out-of-service rows; in half of the cases additional asymmetric loads/sgens): "
+        "transformer data drawn from grids (vk/vkr, vk0/vkr0 incl. 0 = fall back to the positive sequence, pfe/i0 incl. the clamped case i0*sn < pfe and 0/0, mag0_percent, mag0_rx, si0_hv_partial, parallel, leakage ratios); "
+        "symmetric nets carry an impedance element in 40 % of the cases (half of them with shunt part); every line/trafo/impedance row of the pf_3ph and pf ppc "
+        "and every zero-sequence trafo row + its makeYbus two-port is compared with the Coq model; "
         "symmetric nets are compared with runpp, asymmetric ones are checked for per-phase sums and per-phase nodal balance; "
         "non-trivial = the three-phase power flow converged on a net with at least 3 buses")
 ASSUMPTIONS = ["convergence of the sequence iteration of runpp_3ph (outer loop + Newton-Raphson) is not proved; non-convergence of a generated case is counted, not a violation of this property",
-               "zero-sequence transformer models (pd2ppc_zero.py) and the 1/3 scaling of the pf_3ph bases are validated differentially only",
+               "zero-sequence models of lines, ext_grids (except the current bookkeeping) and impedance elements, the load scaling by baseMVA in runpp_3ph and the transformer result writers are validated differentially only",
+               "transformer tap changers: type Ratio with tap_step_degree 0/NaN, no tap dependency table; one transformer per vector group (the vk0 = 0 fallback of pd2ppc_zero.py is group-wise)",
+               "nodes with an impedance element are left out of the per-phase nodal balance (runpp_3ph writes no res_impedance_3ph)",
                "the implementation's float a = exp(j*120deg) approximates the exact element of Q(sqrt3, j) used by the model to 1e-16"]
-TRUSTED = ["numpy matmul/abs/angle", "runpp as the symmetric reference"]
+TRUSTED = ["numpy matmul/abs/angle", "runpp as the symmetric reference", "float sqrt / exp(j*shift) values passed to the model as oracle inputs (sqrt checked against the model arguments to 1e-9)"]
 S3 = math.sqrt(3.0)
 PF_KW = dict(calculate_voltage_angles=True, tolerance_mva=1e-9, numba=False)
 KN_EG = "C11-extgrid-zero-seq-admittance"
+KN_IMP = "C11-impedance-shunt-3ph-base"
+# False = the code as it is (build_branch.py:1027-1030 multiplies the shunt admittances of impedance elements by sn_factor);
+# set to True when .cache/fixes/C11-impedance-shunt-3ph-base.diff is applied to /repo (and delete known_findings.d/C11.json)
+IMPEDANCE_SHUNT_REPAIRED = True
+IMP_SHUNT_COLS = ("gf_pu", "bf_pu", "gt_pu", "bt_pu")
 
 
 def Q(x):
@@ -124,11 +135,18 @@ def _gen_net(rng, asym):
         hv = pp.create_bus(net, vn_kv=110.0)
         pp.create_ext_grid(net, hv, vm_pu=rng.choice([1.0, 1.02, 0.98]), **egkw)
         vg, shift = rng.choice([("Dyn", 150.0), ("YNyn", 0.0), ("Yzn", 150.0), ("Dyn", 30.0)])
+        vk, vkr = rng.choice([(12.0, 0.41), (12.0, 0.41), (10.0, 0.5), (6.0, 1.0)])
+        vk0, vkr0 = rng.choice([(vk, vkr), (vk, vkr), (10.0, 0.5), (0.0, 0.0)])           # (0, 0): fall back to the positive-sequence values
+        pfe, i0 = rng.choice([(0.0, 0.07), (14.0, 0.07), (14.0, 0.1), (30.0, 0.04), (0.0, 0.0)])    # (30, 0.04): b_mva_squared < 0 is clamped
+        kw = {}
+        if rng.random() < 0.3:
+            kw = dict(leakage_resistance_ratio_hv=rng.choice([0.5, 0.4]), leakage_reactance_ratio_hv=rng.choice([0.5, 0.6]))
         pp.create_transformer_from_parameters(net, hv, buses[0], sn_mva=rng.choice([25.0, 40.0]), vn_hv_kv=110.0, vn_lv_kv=rng.choice([20.0, 20.0, 21.0]),
-                                              vkr_percent=0.41, vk_percent=12.0, pfe_kw=rng.choice([0.0, 14.0]), i0_percent=0.07, shift_degree=shift,
-                                              vector_group=vg, vk0_percent=12.0, vkr0_percent=0.41, mag0_percent=100.0, mag0_rx=0.0, si0_hv_partial=0.9,
+                                              vkr_percent=vkr, vk_percent=vk, pfe_kw=pfe, i0_percent=i0, shift_degree=shift,
+                                              vector_group=vg, vk0_percent=vk0, vkr0_percent=vkr0, mag0_percent=rng.choice([100.0, 100.0, 50.0, 10.0]),
+                                              mag0_rx=rng.choice([0.0, 0.0, 0.25]), si0_hv_partial=rng.choice([0.9, 0.9, 0.5]),
                                               tap_side=rng.choice(["hv", "hv", "lv"]), tap_neutral=0, tap_min=-9, tap_max=9, tap_step_percent=1.5, tap_pos=rng.choice([0, 2, -2]),
-                                              tap_changer_type="Ratio")
+                                              tap_changer_type="Ratio", parallel=rng.choice([1, 1, 2]), **kw)
         feat.add("trafo_" + vg)
     else:
         pp.create_ext_grid(net, buses[0], vm_pu=rng.choice([1.0, 1.02]), **egkw)
@@ -148,6 +166,15 @@ def _gen_net(rng, asym):
             pp.create_asymmetric_sgen(net, b_, p_a_mw=rng.randint(0, 4) / 32, q_a_mvar=0.0, p_b_mw=rng.randint(0, 4) / 32, q_b_mvar=rng.randint(0, 2) / 32,
                                       p_c_mw=rng.randint(0, 4) / 32, q_c_mvar=0.0, scaling=rng.choice([1.0, 0.5]), in_service=rng.random() < 0.9)
             feat.add("asym_sgen")
+    if not asym and rng.random() < 0.4:
+        # impedance element (only in symmetric nets: there is no res_impedance_3ph to take per-phase flows from);
+        # with shunt part in half of the cases
+        a, b_ = rng.sample(buses, 2)
+        sh = rng.choice([(0.0, 0.0, 0.0, 0.0), (0.0, 0.0, 0.0, 0.0), (0.01, 0.02, 0.01, 0.02), (0.0, -0.05, 0.0, 0.0), (0.005, 0.01, 0.0, 0.03)])
+        rft, xft = rng.choice([(0.01, 0.02), (0.02, 0.04), (0.005, 0.03)])
+        pp.create_impedance(net, a, b_, rft_pu=rft, xft_pu=xft, sn_mva=rng.choice([10.0, 25.0]), gf_pu=sh[0], bf_pu=sh[1], gt_pu=sh[2], bt_pu=sh[3],
+                            rft0_pu=2 * rft, xft0_pu=2 * xft, gf0_pu=sh[0], bf0_pu=sh[1], gt0_pu=sh[2], bt0_pu=sh[3])
+        feat.add("impedance_shunt" if any(sh) else "impedance")
     if rng.random() < 0.4:
         # two buses fused by a closed bus-bus switch, each with its own loads (they map to one ppc node)
         a = rng.choice(buses[1:])
@@ -167,7 +194,34 @@ def _gen_net(rng, asym):
     return net, feat
 
 
+def _imp_with_shunt(net):
+    """python twin of  negb (G11_imp_noshunt i)  over the in-service impedance elements"""
+    im = net.impedance
+    return bool(len(im)) and bool(((im[list(IMP_SHUNT_COLS)] != 0).any(axis=1) & im.in_service.astype(bool)).any())
+
+
 def _sym_oracle(ctx, net, n3, case):
+    bad = _sym_compare(net, n3)
+    if not bad:
+        return
+    if not IMPEDANCE_SHUNT_REPAIRED and _imp_with_shunt(net):
+        # recorded finding: the shunt admittances of impedance elements are 9 times too large in runpp_3ph (3x instead of
+        # 1/3 on the base 3*sn).  Exactly that: the three-phase result IS the symmetric power flow of the same net with
+        # 9 times the shunt admittances of its impedance elements
+        n9 = copy.deepcopy(net)
+        for c in IMP_SHUNT_COLS:
+            n9.impedance[c] = n9.impedance[c] * 9.0
+        try:
+            pp.runpp(n9, **PF_KW)
+            if not _sym_compare(n9, n3):
+                ctx.violation(KN_IMP, "symmetric net with an impedance element with shunt part: " + "; ".join(bad[:2]), case)
+                return
+        except Exception:
+            pass
+    ctx.violation("spec", "symmetric net: " + "; ".join(bad[:3]), case)
+
+
+def _sym_compare(net, n3):
     bad = []
     for b_ in net.bus.index:
         v, a = net.res_bus.vm_pu.at[b_], net.res_bus.va_degree.at[b_]
@@ -199,8 +253,7 @@ def _sym_oracle(ctx, net, n3, case):
         x3 = n3.res_ext_grid_3ph["p_%s_mw" % ph].sum()
         if abs(x3 - net.res_ext_grid.p_mw.sum() / 3) > 1e-6:
             bad.append("ext_grid p_%s: %.8f vs one third of %.8f" % (ph, x3, net.res_ext_grid.p_mw.sum()))
-    if bad:
-        ctx.violation("spec", "symmetric net: " + "; ".join(bad[:3]), case)
+    return bad
 
 
 def _asym_oracle(ctx, n3, case):
@@ -229,8 +282,12 @@ def _asym_oracle(ctx, n3, case):
     groups = {}
     for b_ in n3.bus.index:
         groups.setdefault(int(lk[b_]), []).append(int(b_))     # buses fused by closed bus-bus switches form one node
+    imp_buses = set(n3.impedance.from_bus.values) | set(n3.impedance.to_bus.values) if len(n3.impedance) else set()
     for node, members in groups.items():
         b_ = members[0]
+        if imp_buses & set(members):
+            ctx.count("impedance_bus_no_3ph_flow_table")      # runpp_3ph writes no res_impedance_3ph: no per-phase flows to balance
+            continue
         dS, Vk = [], []
         for ph in "abc":
             p = sum(n3.res_bus_3ph["p_%s_mw" % ph].at[m_] for m_ in members)
@@ -344,6 +401,175 @@ def _cmp_elem(ctx, m, obs, d, case):
             ctx.disagreement("element phase values: model %s impl %s" % ([float(x) for x in me[:3]], oe), case)
 
 
+
+# ------------------------------------------------------------------ (d) per-unit bases of the branch rows: pf_3ph vs pf
+def Qe(x):
+    """exact rational of a float (grid values: short)"""
+    return cq.q(float(x), bits=40)
+
+
+def _line_in(net, ppc, l):
+    r = net.line.loc[l]
+    bkv = float(ppc["bus"][int(net._pd2ppc_lookups["bus"][int(r.from_bus)]), IBUS.BASE_KV].real)
+    g = float(r.g_us_per_km) if "g_us_per_km" in net.line else 0.0
+    return "(Build_line_in %s %s %s %s %s %s %s)" % (Qe(r.r_ohm_per_km), Qe(r.x_ohm_per_km), Qe(r.c_nf_per_km), Qe(g), Qe(r.length_km),
+                                                      Qe(r.parallel), Qe(bkv))
+
+
+def _trafo_vals(net, ppc, t):
+    r = net.trafo.loc[t]
+    lk = net._pd2ppc_lookups["bus"]
+    d = dict(vn_hv=float(r.vn_hv_kv), vn_lv=float(r.vn_lv_kv), sn_t=float(r.sn_mva), vk=float(r.vk_percent), vkr=float(r.vkr_percent),
+             pfe=float(r.pfe_kw), i0=float(r.i0_percent), par=float(r.parallel), shift=float(r.shift_degree), lv=(r.tap_side == "lv"),
+             pos=float(r.tap_pos), neu=float(r.tap_neutral), step=float(r.tap_step_percent),
+             bkv_hv=float(ppc["bus"][int(lk[int(r.hv_bus)]), IBUS.BASE_KV].real), bkv_lv=float(ppc["bus"][int(lk[int(r.lv_bus)]), IBUS.BASE_KV].real),
+             rr=float(r.leakage_resistance_ratio_hv) if "leakage_resistance_ratio_hv" in net.trafo else 0.5,
+             xr=float(r.leakage_reactance_ratio_hv) if "leakage_reactance_ratio_hv" in net.trafo else 0.5)
+    return d
+
+
+def _trafo_in(d):
+    return "(Build_trafo_in %s %s %s %s %s %s %s %s %s %s %s %s %s %s %s %s %s)" % (
+        Qe(d["vn_hv"]), Qe(d["vn_lv"]), Qe(d["sn_t"]), Qe(d["vk"]), Qe(d["vkr"]), Qe(d["pfe"]), Qe(d["i0"]), Qe(d["par"]), Qe(d["shift"]),
+        cq.b(bool(d["lv"])), Qe(d["pos"]), Qe(d["neu"]), Qe(d["step"]), Qe(d["bkv_hv"]), Qe(d["bkv_lv"]), Qe(d["rr"]), Qe(d["xr"]))
+
+
+def _trafo_oracles(pf3ph, sn, d, zero=False):
+    """float sqrt values the implementation computes (the model takes them as oracle inputs): tap, x_sc, b_mva"""
+    u1 = d["vn_lv"] if d["lv"] else d["vn_hv"]
+    du = u1 * (d["step"] * (d["pos"] - d["neu"]) / 100)
+    sq_tap = math.sqrt((u1 + du * 1.0) ** 2 + (du * 0.0) ** 2)
+    vtl = sq_tap if d["lv"] else d["vn_lv"]
+    tap_lv = (vtl / d["bkv_lv"]) ** 2 * (3 * sn if pf3ph else sn)
+    vk, vkr = (d["vk0"], d["vkr0"]) if zero else (d["vk"], d["vkr"])
+    z, r = vk / 100. / d["sn_t"] * tap_lv, vkr / 100. / d["sn_t"] * tap_lv
+    sq_x = math.sqrt(max(z * z - r * r, 0.0))
+    pfe = d["pfe"] * 1e-3 / (3 if pf3ph else 1)
+    ym = d["i0"] / (3 if pf3ph else 1) / 100 * d["sn_t"]
+    sq_b = math.sqrt(max(ym * ym - pfe * pfe, 0.0))
+    return sq_tap, sq_x, sq_b
+
+
+def _imp_in(net, i):
+    r = net.impedance.loc[i]
+    return "(Build_imp_in %s %s %s %s %s %s %s %s %s)" % tuple(Qe(r[c]) for c in ("rft_pu", "xft_pu", "rtf_pu", "xtf_pu", "gf_pu", "bf_pu", "gt_pu", "bt_pu", "sn_mva"))
+
+
+LINE_COLS = (IB.BR_R, IB.BR_X, IB.BR_B, IB.BR_G)
+TRAFO_COLS = (IB.BR_R, IB.BR_X, IB.BR_G, IB.BR_B, IB.BR_G_ASYM, IB.BR_B_ASYM, IB.TAP, IB.SHIFT)
+IMP_COLS = (IB.BR_R, IB.BR_X, IB.BR_R_ASYM, IB.BR_X_ASYM, IB.BR_G, IB.BR_B, IB.BR_G_ASYM, IB.BR_B_ASYM)
+
+
+def _row_jobs(ctx, net, ppc, pf3ph, tag, pi=False):
+    """one job per line / trafo / impedance row of the ppc `ppc` built from `net` in mode pf_3ph (pf3ph) or pf"""
+    jobs = []
+    lk = net._pd2ppc_lookups["branch"]
+    sn, fl = float(net.sn_mva), cq.b(bool(pf3ph))
+    if ppc["baseMVA"] != sn:
+        ctx.disagreement("baseMVA of the %s ppc is %r, net.sn_mva is %r" % (tag, ppc["baseMVA"], sn), {"tag": tag})
+    if "line" in lk and not pi:
+        f, _ = lk["line"]
+        for j, l in enumerate(net.line.index):
+            obs = [float(ppc["branch"][f + j, c].real) for c in LINE_COLS]
+            jobs.append(("run_line_row %s %s %s %s %s" % (fl, Qe(sn), Qe(net.f_hz), cq.q(math.pi), _line_in(net, ppc, l)), ("row", tag + ":line", obs, None),
+                         {"element": "line", "index": int(l), "mode": tag}))
+            ctx.count("row_line_" + tag)
+    if "trafo" in lk:
+        f, _ = lk["trafo"]
+        for j, t in enumerate(net.trafo.index):
+            d = _trafo_vals(net, ppc, t)
+            o = _trafo_oracles(pf3ph, sn, d)
+            cols = TRAFO_COLS[:4] if pi else TRAFO_COLS
+            obs = [float(ppc["branch"][f + j, c].real) for c in cols]
+            jobs.append(("%s %s %s %s %s %s %s" % ("run_trafo_row_pi" if pi else "run_trafo_row", fl, Qe(sn), _trafo_in(d), Qe(o[0]), Qe(o[1]), Qe(o[2])),
+                         ("row", tag + ":trafo", obs, None if pi else o), {"element": "trafo", "index": int(t), "mode": tag, "values": {k: (float(v) if not isinstance(v, bool) else v) for k, v in d.items()}}))
+            ctx.count("row_trafo_" + tag)
+    if "impedance" in lk and not pi:
+        f, _ = lk["impedance"]
+        for j, i in enumerate(net.impedance.index):
+            obs = [float(ppc["branch"][f + j, c].real) for c in IMP_COLS]
+            jobs.append(("run_imp_row %s %s %s %s" % (cq.b(IMPEDANCE_SHUNT_REPAIRED), fl, Qe(sn), _imp_in(net, i)), ("row", tag + ":impedance", obs, None), {"element": "impedance", "index": int(i), "mode": tag}))
+            ctx.count("row_impedance_" + tag)
+    return jobs
+
+
+def rclose(a, b, tol=1e-9):
+    return abs(a - b) <= tol * max(abs(a), abs(b)) + 1e-13
+
+
+def _cmp_row(ctx, m, obs, d, case):
+    ctx.corr_checked += 1
+    _, what, row, orc = obs
+    if isinstance(m, cq.Err):
+        ctx.disagreement("%s row: model %r, impl %s" % (what, m, row), case or d)
+        return
+    got = [float(x) for x in m[:len(row)]]
+    if not all(rclose(a, b_) for a, b_ in zip(got, row)):
+        ctx.disagreement("%s row %s: model %s impl %s" % (what, d, got, row), case or d)
+    if orc is not None:
+        # the oracle values handed to the model meet the contract s*s = argument (argument computed by the model)
+        for s_, a in zip(orc, m[len(row):]):
+            if abs(s_ * s_ - float(a)) > 1e-9 * max(abs(float(a)), 1e-30) + 1e-18:
+                ctx.disagreement("%s: sqrt oracle %r does not meet its contract for the model argument %r" % (what, s_, float(a)), case or d)
+
+
+
+# ------------------------------------------------------------------ (e) zero-sequence transformer rows (pd2ppc_zero.py)
+ZERO_COLS = (IB.BR_R, IB.BR_X, IB.BR_G, IB.BR_B, IB.BR_G_ASYM, IB.BR_B_ASYM, IB.TAP, IB.SHIFT, IB.BR_STATUS)
+VG = {"dyn": "Dyn", "ynyn": "YNyn", "yzn": "Yzn"}
+
+
+def _zero_jobs(ctx, n3):
+    """zero-sequence ppc row of every transformer after runpp_3ph + the two-port makeYbus.branch_vectors makes of it"""
+    from pandapower.pypower.makeYbus import branch_vectors
+    jobs = []
+    lk = n3._pd2ppc_lookups["branch"]
+    if "trafo" not in lk:
+        return jobs
+    ppc0 = n3._ppc0
+    sn = float(n3.sn_mva)
+    f, _ = lk["trafo"]
+    for j, t in enumerate(n3.trafo.index):
+        r = n3.trafo.loc[t]
+        vg = VG.get(str(r.vector_group).lower())
+        if vg is None:
+            continue
+        d = _trafo_vals(n3, ppc0, t)
+        vk0 = float(r.vk0_percent) if abs(float(r.vk0_percent)) > 1e-8 else float(r.vk_percent)
+        vkr0 = float(r.vkr0_percent) if abs(float(r.vkr0_percent)) > 1e-8 else float(r.vkr_percent)
+        d.update(vk0=vk0, vkr0=vkr0)
+        sq_tap, sq_x0, _ = _trafo_oracles(True, sn, d, zero=True)
+        sq_m = math.sqrt(float(r.mag0_rx) ** 2 + 1)
+        e = np.exp(1j * math.pi / 180 * float(r.shift_degree))
+        row = ppc0["branch"][f + j, :]
+        obs = [float(row[c].real) for c in ZERO_COLS]
+        Ytt, Yff, Yft, Ytf = branch_vectors(ppc0["branch"][f + j:f + j + 1, :], 1)
+        term = "run_zero_row %s %s (Build_zero_in %s %s %s %s %s %s %s %s) %s %s %s %s" % (
+            Qe(sn), Qe(ppc0["baseMVA"]), _trafo_in(d), Qe(r.vk0_percent), Qe(r.vkr0_percent), Qe(r.mag0_percent), Qe(r.mag0_rx), Qe(r.si0_hv_partial),
+            cq.b(bool(r.in_service)), vg, Qe(sq_tap), Qe(sq_x0), Qe(sq_m), Cq(e))
+        jobs.append((term, ("zero", vg, obs, (sq_x0, sq_m), [complex(Yff[0]), complex(Yft[0]), complex(Ytf[0]), complex(Ytt[0])]),
+                     {"element": "trafo", "index": int(t), "vector_group": vg, "sequence": 0}))
+        ctx.count("zero_row_" + vg)
+    return jobs
+
+
+def _cmp_zero(ctx, m, obs, d, case):
+    ctx.corr_checked += 1
+    _, vg, row, orc, stamps = obs
+    if isinstance(m, cq.Err):
+        ctx.disagreement("zero-sequence %s row: model %r, impl %s" % (vg, m, row), case)
+        return
+    got = [float(x) for x in m[:9]]
+    if not all(rclose(a, b_) for a, b_ in zip(got, row)):
+        ctx.disagreement("zero-sequence %s row [R X G B G_ASYM B_ASYM TAP SHIFT STATUS]: model %s impl %s" % (vg, got, row), case)
+    for s_, a in zip(orc, m[9:11]):
+        if abs(s_ * s_ - float(a)) > 1e-9 * max(abs(float(a)), 1e-30) + 1e-18:
+            ctx.disagreement("zero-sequence %s: sqrt oracle %r does not meet its contract for the model argument %r" % (vg, s_, float(a)), case)
+    ms = [complex(float(x[0]), float(x[1])) for x in m[11:15]]
+    if not all(abs(a - b_) <= 1e-9 * max(abs(a), abs(b_)) + 1e-13 for a, b_ in zip(ms, stamps)):
+        ctx.disagreement("zero-sequence %s two-port [Yff Yft Ytf Ytt]: model %s impl %s" % (vg, ms, stamps), case)
+
+
 # ------------------------------------------------------------------ (b) white-box line writer
 def _line_writer_jobs(ctx, rng, n3, count):
     jobs = []
@@ -401,9 +627,18 @@ def run(ctx):
     kinds = ["t"] * len(jobs)
     cases = [None] * len(jobs)
     writer_done = 0
-    for k in range(ctx.n(22, 400)):
-        asym = k % 2 == 1
-        net, feat = _gen_net(rng, asym)
+    rjobs, rcases, pi_done = [], [], 0
+    zjobs, zcases = [], []
+    corpus = [json.load(open(f))["case"] for f in sorted(glob.glob(os.path.join(cq.VERIF, "corpus", "C11", "*.json")))]
+    ngen = ctx.n(22, 400)
+    for k in range(-len(corpus), ngen):
+        if k < 0:
+            cc = corpus[k]
+            net, feat, asym = pp.from_json_string(cc["net"]), {"corpus"}, bool(cc.get("asymmetric"))
+            ctx.count("corpus")
+        else:
+            asym = k % 2 == 1
+            net, feat = _gen_net(rng, asym)
         js = pp.to_json(net)
         case = {"net": js, "asymmetric": asym}
         n3 = pp.from_json_string(js)
@@ -416,13 +651,30 @@ def run(ctx):
         for f_ in sorted(feat):
             ctx.count("feature_" + f_)
         ctx.count("asymmetric_nets" if asym else "symmetric_nets")
-        ctx.case(case, nontrivial=len(net.bus) >= 3, sample={"features": sorted(feat), "buses": len(net.bus), "asymmetric": asym} if k < 2 else None)
+        ctx.case(case, nontrivial=len(net.bus) >= 3, sample={"features": sorted(feat), "buses": len(net.bus), "asymmetric": asym} if 0 <= k < 2 else None)
+        # (d) branch rows of the positive-sequence ppc of runpp_3ph (mode pf_3ph) and of the ppc of runpp (mode pf)
+        for j in _row_jobs(ctx, n3, n3._ppc1, True, "pf_3ph"):
+            rjobs.append(j)
+            rcases.append(case)
+        for j in _zero_jobs(ctx, n3):
+            zjobs.append(j)
+            zcases.append(case)
+        try:
+            pp.runpp(net, **PF_KW)
+        except Exception as e:
+            ctx.count("runpp_failed")
+            continue
+        for j in _row_jobs(ctx, net, net._ppc, False, "pf"):
+            rjobs.append(j)
+            rcases.append(case)
+        if len(net.trafo) and pi_done < ctx.n(6, 100):
+            npi = pp.from_json_string(js)
+            pp.runpp(npi, trafo_model="pi", **PF_KW)
+            pi_done += 1
+            for j in _row_jobs(ctx, npi, npi._ppc, False, "pf_pi", pi=True):
+                rjobs.append(j)
+                rcases.append(case)
         if not asym:
-            try:
-                pp.runpp(net, **PF_KW)
-            except Exception as e:
-                ctx.count("runpp_failed")
-                continue
             _sym_oracle(ctx, net, n3, case)
         _asym_oracle(ctx, n3, case)
         if asym:
@@ -444,6 +696,12 @@ def run(ctx):
                 jobs.append(j)
                 kinds.append("l")
                 cases.append(None)
+    rmodel = ctx.coq_eval("c11b", "Base.QN Base.QC C11.Base3", [j[0] for j in rjobs], shard=40, timeout=900)
+    for (term, obs, d), m, case in zip(rjobs, rmodel, rcases):
+        _cmp_row(ctx, m, obs, d, case)
+    zmodel = ctx.coq_eval("c11z", "Base.QN Base.QC C11.Base3 C11.Zero", [j[0] for j in zjobs], shard=12, timeout=900)
+    for (term, obs, d), m, case in zip(zjobs, zmodel, zcases):
+        _cmp_zero(ctx, m, obs, d, case)
     model = ctx.coq_eval("c11", "Base.QN Base.QC Base.C11K C11.Model", [j[0] for j in jobs], shard=45, timeout=900)
     for (term, obs, d), kd, m, case in zip(jobs, kinds, model, cases):
         if kd == "t":
